@@ -252,6 +252,22 @@ def runOp (op : String) (fields : List String) (impl : String) : Option Verdict 
     let params ← parseParams ps
     let m := fmtCompile (compile params s) ++ " SAME"
     pure { model := if m == normHead impl then impl else m, oracle := histOracle impl }
+  | "LINECOL", [h, ps] => do
+    let s ← Bytes.ofHex h
+    let pos ← ps.toNat?
+    let (l, c) := linecol s pos
+    -- oracle: the position points into the source: line ≤ 1 + number of newlines before pos, column ≥ 1
+    let nl := ((s.take pos).filter (· == 10)).length
+    let oracle : List String :=
+      match impl.splitOn " " with
+      | [a, b, x, y] =>
+        match a.toNat?, b.toNat?, x.toNat?, y.toNat? with
+        | some l1, some c1, some l2, some c2 =>
+          (if l1 == nl + 1 && l2 == nl + 1 && c1 ≥ 1 && c2 ≥ 1 then [] else ["c10-linecol-outside-source"]) ++
+          (if l1 == l2 && c1 == c2 then [] else ["c10-linecol-copies-differ"])
+        | _, _, _, _ => ["unreadable-result"]
+      | _ => ["unreadable-result"]
+    pure { model := toString l ++ " " ++ toString c ++ " " ++ toString l ++ " " ++ toString c, oracle }
   | "PARSEV", [h] => do
     let s ← Bytes.ofHex h
     pure { model := fmtParse (parse s), oracle := ParseOracle.clauses s impl true }
